@@ -75,6 +75,17 @@ func scenarios(tier string, yield func(any) bool) {
 			}
 		}
 	}
+	// first lines of every length 0..24 made of one filler byte, ended by LF or CRLF, alone and
+	// followed by more data: the offsets text parsers compute from the position of the first
+	// line end (protocol token, version, CR before LF) all lie in this range
+	for _, sp := range append(mrun.Specs(), mrun.HandlerSpecs()...) {
+		if sp.Module == "quic" {
+			continue
+		}
+		if !yield(&Scn{Spec: sp, Kind: "lines", Shard: 0, Of: 1}) {
+			return
+		}
+	}
 	// the same configurations with their string options written as placeholders (resolved when
 	// the module is provisioned): every option set through the environment, and each option in
 	// turn resolving to nothing.  Driven with the corpus messages and all their prefixes.
@@ -254,6 +265,16 @@ func run(tier string, scAny any, rep *runner.Report) {
 			i++
 			return i%4096 != 0 || !rep.Expired()
 		})
+	case "lines":
+		for n := 0; n <= 24; n++ {
+			for _, fill := range []byte{'A', ' ', '/'} {
+				for _, end := range []string{"\n", "\r\n", "\r"} {
+					for _, tail := range []string{"", "B", "\r\n", "\n\n"} {
+						t.add([]byte(strings.Repeat(string(fill), n) + end + tail))
+					}
+				}
+			}
+		}
 	case "ph":
 		rep.Count("placeholder-forms-driven", 1)
 		base := sc.Spec
